@@ -78,7 +78,11 @@ def cases(rng, tier):
         yield {"op": "C02.build", "tag": "exh-if", "store": sc.g_store(rng),
                "prog": [["if", ["v", "fl"]], ALPHA[a], ["endif"], ["else"], ALPHA[b], ["endelse"], ALPHA[a]]}
     for _ in range(500 if tier == "quick" else 10000):
-        yield {"op": "C02.build", "tag": "random", "prog": gen_program(rng), "store": sc.g_store(rng)}
+        c = {"op": "C02.build", "tag": "random", "prog": gen_program(rng), "store": sc.g_store(rng)}
+        if rng.random() < 0.25:
+            c["str_args"] = True        # plain variables / numbers handed to the builder as text
+            c["tag"] = "random+text-arguments"
+        yield c
 
 
 def exhaustive(tier):
@@ -87,8 +91,18 @@ def exhaustive(tier):
 
 # ---- real builder
 
-def drive_builder(cb, prog):
-    """make the builder calls of `prog` on the REAL CodeBuilder `cb`; returns (fresh names, failure)"""
+def _simple(j):
+    return isinstance(j, list) and (j[0] == "v" or (j[0] == "c" and isinstance(j[1], int) and not isinstance(j[1], bool) and j[1] >= 0))
+
+
+def drive_builder(cb, prog, str_args=False):
+    """make the builder calls of `prog` on the REAL CodeBuilder `cb`; returns (fresh names, failure).
+    str_args: plain variables / numbers are handed over as TEXT wherever the builder API takes an expression
+    (yielded value and its time, right-hand side and target of a plain assignment, condition of if_)"""
+
+    def arg(j):
+        e = ser.from_js(j)
+        return str(e) if str_args and _simple(j) else e
     from pymbolic import var
     from pymbolic.primitives import Call, CallWithKwargs, Variable
     cms = []
@@ -103,7 +117,9 @@ def drive_builder(cb, prog):
                 if t == "assign":
                     _, lhs, sub, rhs, loops = kind
                     target = var(lhs) if sub is None else var(lhs)[ser.from_js(sub)]
-                    cb.assign(target, ser.from_js(rhs), loops=[(i, ser.from_js(lo), ser.from_js(hi)) for i, lo, hi in loops])
+                    if str_args and sub is None:
+                        target = lhs
+                    cb.assign(target, arg(rhs), loops=[(i, ser.from_js(lo), ser.from_js(hi)) for i, lo, hi in loops])
                 elif t == "call":
                     _, lhs, f, args, kw = kind
                     a = tuple(ser.from_js(x) for x in args)
@@ -111,7 +127,7 @@ def drive_builder(cb, prog):
                     cb.assign(tuple(var(x) for x in lhs), e)
                 elif t == "yield":
                     _, e, tm, tid, comp = kind
-                    cb.yield_state(ser.from_js(e), comp, ser.from_js(tm), tid)
+                    cb.yield_state(arg(e), comp, arg(tm), tid)
                 elif t == "fail":
                     cb.fail_step()
                 elif t == "switch":
@@ -121,7 +137,7 @@ def drive_builder(cb, prog):
                 else:
                     raise ValueError(kind)
             elif k == "if":
-                cm = cb.if_(ser.from_js(op[1]))
+                cm = cb.if_(arg(op[1]))
                 cm.__enter__()
                 cms.append(cm)
             elif k in ("endif", "endelse"):
@@ -140,11 +156,11 @@ def drive_builder(cb, prog):
     return fresh, failed
 
 
-def run_builder(prog):
+def run_builder(prog, str_args=False):
     """returns (statements, fresh names, failure)"""
     from dagrt.language import CodeBuilder
     cb = CodeBuilder("p")
-    fresh, failed = drive_builder(cb, prog)
+    fresh, failed = drive_builder(cb, prog, str_args)
     return cb.statements, fresh, failed
 
 
@@ -174,7 +190,7 @@ def idx(sid):
 
 def impl(case):
     try:
-        stmts, fresh, failed = run_builder(case["prog"])
+        stmts, fresh, failed = run_builder(case["prog"], case.get("str_args", False))
     except ValueError as e:
         return {"dropped": "builder-api-rejects"}
     out = []
@@ -185,7 +201,7 @@ def impl(case):
 
 
 def model_input(case):
-    stmts, fresh, failed = run_builder(case["prog"])
+    stmts, fresh, failed = run_builder(case["prog"], case.get("str_args", False))
     return {"op": "C02.build", "ops": model_ops(case["prog"], stmts)}
 
 
@@ -242,7 +258,7 @@ def oracle(case, out):
     import random
     if "dropped" in out:
         return None
-    stmts, fresh, failed = run_builder(case["prog"])
+    stmts, fresh, failed = run_builder(case["prog"], case.get("str_args", False))
     if len(set(fresh)) != len(fresh):
         return {"what": f"fresh_var_name returned a name twice: {fresh}", "sig": "fresh-dup"}
     n = len(stmts)
